@@ -141,7 +141,9 @@ func (fc *FnCtx) callByContract(fr *Frame, st *State, reach string, con *Contrac
 	}
 	fc.consume(fr, st, reach, con, vars, con.Consumes, "call "+shortName(callee), "true")
 	pre := st.clone()
+	fc.curCallee = callee
 	deferred := fc.applyModifies(st, pre, con, vars)
+	fc.curCallee = nil
 	var res Val
 	if con.Pure {
 		res = fc.pureResult(st, callee, args, resultType(sig.Results()))
@@ -153,10 +155,23 @@ func (fc *FnCtx) callByContract(fr *Frame, st *State, reach string, con *Contrac
 		t2, _ := fc.evalModifiesD(st, con, deferred, vars, false)
 		fc.havocTargets(st, t2)
 	}
-	for i, cl := range append(append([]*Clause{}, con.Defines...), con.Ensures...) {
+	defs := append([]*Clause{}, con.Defines...)
+	if prim := fc.eng.contracts[con.Key]; prim != nil && prim != con {
+		// a property-scoped view also carries the primary contract's definitions of
+		// volatile ghosts (observation registers are not part of any frame)
+		for _, cl := range prim.Defines {
+			for n, g := range fc.eng.ghosts {
+				if g.Field && g.Volatile && strings.Contains(cl.Text, n+"(") {
+					defs = append(defs, cl)
+					break
+				}
+			}
+		}
+	}
+	for i, cl := range append(defs, con.Ensures...) {
 		env := fc.specEnv(st, pre, vars, con.Pkg, nil, cl.Text)
 		var t string
-		if i < len(con.Defines) {
+		if i < len(defs) {
 			if fc.mentionsUnusedVolatile(cl.Text) {
 				continue // defines an observation register this function never looks at
 			}
@@ -477,7 +492,7 @@ func (fc *FnCtx) applyModifies(st, pre *State, con *Contract, vars map[string]Va
 		st.heap["GH$sendtries"] = fc.sc.fresh("gh_sendtries", "(Array Int Int)")
 		fc.sorts["GH$sendtries"] = "(Array Int Int)"
 	}
-	fc.forgetVolatileGhosts(st)
+	fc.forgetVolatileGhosts(st, con)
 	// callee allocations: allocation only grows
 	if con.allocates() {
 		old := fc.alloc(st)
@@ -492,7 +507,7 @@ func (fc *FnCtx) applyModifies(st, pre *State, con *Contract, vars map[string]Va
 // forgetVolatileGhosts: a volatile ghost field is not covered by anybody's frame,
 // so every call by contract forgets it (a `defines` clause of the callee then
 // gives it its new value).
-func (fc *FnCtx) forgetVolatileGhosts(st *State) {
+func (fc *FnCtx) forgetVolatileGhosts(st *State, con *Contract) {
 	var gn []string
 	for n := range fc.eng.ghosts {
 		gn = append(gn, n)
@@ -500,6 +515,11 @@ func (fc *FnCtx) forgetVolatileGhosts(st *State) {
 	sort.Strings(gn)
 	for _, n := range gn {
 		if g := fc.eng.ghosts[n]; g.Field && g.Volatile && fc.usesVolatile(n) {
+			// a verified callee with an explicit frame that cannot reach a definer of
+			// the ghost (static calls only, no dynamic dispatch) leaves it alone
+			if fc.curCallee != nil && con != nil && !con.Trusted && !con.ModAll && !fc.eng.mayDefineGhost(fc.curCallee, n, map[*ssa.Function]bool{}) {
+				continue
+			}
 			srt := "(Array Int " + g.Ret + ")"
 			st.heap["GH$"+n] = fc.sc.fresh("gh_"+n, srt)
 			fc.sorts["GH$"+n] = srt
@@ -512,6 +532,57 @@ func (fc *FnCtx) forgetVolatileGhosts(st *State) {
 // model it at all -- their verification conditions stay as they were.
 func (fc *FnCtx) usesVolatile(name string) bool {
 	return fc.con != nil && strings.Contains(fc.con.AllText, name+"(")
+}
+
+// mayDefineGhost: can a call of fn change the volatile ghost g? Yes if its
+// contract defines g, if it makes any dynamic call (interface method, function
+// value), or if a statically called function can.
+func (e *Engine) mayDefineGhost(fn *ssa.Function, g string, seen map[*ssa.Function]bool) bool {
+	if seen[fn] {
+		return false
+	}
+	seen[fn] = true
+	if con := e.contracts[fn.String()]; con != nil {
+		for _, cl := range con.Defines {
+			if strings.Contains(cl.Text, g+"(") {
+				return true
+			}
+		}
+	}
+	if g == "recvtries" {
+		return true // built-in: any receive changes it; not tracked per function
+	}
+	if fn.Blocks == nil {
+		return !pureExternal(fn.String()) && fn.Pkg != nil && strings.HasPrefix(fn.Pkg.Pkg.Path(), repoMod)
+	}
+	for _, b := range fn.Blocks {
+		for _, ins := range b.Instrs {
+			ci, ok := ins.(ssa.CallInstruction)
+			if !ok {
+				continue
+			}
+			com := ci.Common()
+			if _, isB := com.Value.(*ssa.Builtin); isB {
+				continue
+			}
+			callee := com.StaticCallee()
+			if callee == nil {
+				return true
+			}
+			if callee.Pkg == nil || !strings.HasPrefix(callee.Pkg.Pkg.Path(), repoMod) {
+				continue // library code does not call back into the definers (T3)
+			}
+			if e.mayDefineGhost(callee, g, seen) {
+				return true
+			}
+		}
+	}
+	for _, anon := range fn.AnonFuncs {
+		if e.mayDefineGhost(anon, g, seen) {
+			return true
+		}
+	}
+	return false
 }
 
 func (fc *FnCtx) mentionsUnusedVolatile(text string) bool {
